@@ -38,10 +38,14 @@ ENTRY = dict(
                "witness schedules, fact-selected dichotomy) + exhaustive differential against the real engine with "
                "enforced witness replay through verifhook schedule points"),
     lean_modules=["Bpmn.Props.C06", "Bpmn.Props.C06Current"],
-    families=["c06"],
+    families=["c06", "c06loop"],
     exhaustive=True,
     multi_seed=False,
-    rule=("process start -> event-based gateway -> k in {2,3} intermediate catch events (signal sigA, message sigB, signal "
+    rule=("c06loop: the gateway RE-ENTERED through a loop (start -> merge -> G -> C0 -> T0 -> back to the merge; G -> C1 -> T1 -> end; "
+          "with 3 alternatives a second looping one): every word of 0..3 (thorough 5) looping rounds followed by the leaving "
+          "alternative, with and without the other alternatives' events delivered while nobody listens; judged per "
+          "activation on the recorded traces: one determination, exactly the delivered alternative's task requested, no "
+          "blocked delivery, no panic, completion at the end. c06: process start -> event-based gateway -> k in {2,3} intermediate catch events (signal sigA, message sigB, signal "
           "sigC) -> one task per branch -> end, run on the real engine, one OS process per case. Histories: EVERY non-empty "
           "sequence of the competing events up to length 4 (quick: length 3 for k=3) x {delivered one by one at quiescence, "
           "back to back without waiting, all at once from different goroutines}; every ConsumeEvent under a 400 ms "
